@@ -3,6 +3,7 @@
 import math, itertools
 from fractions import Fraction
 from engine import Prop, fbits, bitsf, ratstr, parse_rat, tok_list, untok, close, err_kind
+from props import c09sess as SS
 
 V_LOG = [0, -1, -2]        # what P / Q return when the model is declared log=True: log-likelihoods, i.e. costs 0, 1, 2
 V_LIK = [0, 0.5, 1]        # likelihoods
@@ -104,32 +105,54 @@ class P(Prop):
     id = "C09"
     design_ref = "DESIGN.md section 5, C09 and appendix A.4"
     M = "TracklibVerif.Props.C09"
+    H = "TracklibVerif.Lemmas.Hmm"
     theorems = [
         (M, "TV.C09.decode_succeeds", "with >= 1 candidate per epoch the table-building decoder (what the driver runs) does not fail and records one entry per epoch"),
         (M, "TV.C09.decoded_valid", "T1: the state inferred at epoch k is an index < n_k, i.e. one of THAT epoch's candidates (no hypothesis on costs)"),
         (M, "TV.C09.decoded_cost", "T2: hmm_cost at epoch k is the left-fold cost of the decoded prefix; at the last epoch it is the minimum of the last column TAB_VAL[N]"),
         (M, "TV.C09.decoded_optimal", "T3: the decoded sequence costs no more than any sequence choosing one candidate per epoch, and the last recorded cost is that minimum (monotone accumulation, path costs below the sentinel)"),
         (M, "TV.C09.decoded_optimal_add", "T3 for + over any ordered additive commutative monoid (N, Z, Q, R)"),
-        (M, "TV.C09.likelihood_form", "T4 (reals): with costs -log(v+eps) of positive likelihoods the decoded sequence has maximal joint likelihood and the recorded final cost is -log of that maximum"),
+        (M, "TV.C09.likelihood_form", "T4 (reals): with costs -log(v+eps) of likelihoods with v+eps > 0 the decoded sequence has maximal guarded joint likelihood and the recorded final cost is -log of that maximum"),
         (M, "TV.C09.logs_supplied_same", "T4b: supplying log(v+eps) with log=True gives the decoder the same cost tables, hence the same sequence and costs"),
+        (M, "TV.C09.zero_factors_minimised", "T4c (reals): likelihoods 0 or in [a,b], guard eps > 0 small against them (eps (b+eps)^(2N) < a^(2N+1)): the decoded sequence has the fewest zero factors among all candidate sequences"),
+        (M, "TV.C09.zero_avoided", "T4c corollary: if some candidate sequence has no zero likelihood, the decoded sequence has none"),
+        (M, "TV.C09.estimate_spec", "T5: one call of estimate on any well-formed track (whatever it carried: hmm_* of an earlier decoding, of the user, a copy) raises nothing, or-s log into the object, writes STATES[k][i_k] and the recorded cost of the decoding of THIS call's tables at every epoch, leaves every other feature unchanged"),
+        (M, "TV.C09.estimate_optimal", "T6: end to end over an ordered additive group: the states read from hmm_inference after the call are candidates of their epochs and form a minimal-cost sequence for the tables of this call; hmm_cost at the last epoch is that minimum"),
+        (M, "TV.C09.estimate_twice", "T7: two calls on the same track (other object / model / observations / flag / mode): after the second call the result features hold the decoding of the second call, compiled from the track as the first call left it"),
+        (H, "TV.Hmm.writeBack_forward", "the backward loop with its writes: hmm_inference[j] = STATES[j][back j], hmm_cost[j] = TAB_VAL[j][back j] for every epoch, nothing else touched, no exception"),
+        (H, "TV.Hmm.estimate_last_empty", "an empty candidate list at the last epoch: ValueError after the two features were created, nothing decoded, other features unchanged"),
         ("TracklibVerif.Lemmas.ViterbiTable", "TV.Viterbi.decode_eq", "refinement: the table-building decode equals the function-style back-pointer path from a minimal last state with the function-style values"),
         ("TracklibVerif.Lemmas.ViterbiTable", "TV.Viterbi.sentinel_of_paths", "if every candidate sequence's running cost stays below 1e300 then every value compared with best_val is below it"),
     ]
     partial = []
     open_statements = [
-        "IEEE-754: monotonicity of float + on finite values and the rounding of math.log are not proved (theorems are over linear orders / ordered monoids / reals); the float streams are covered by the correspondence and the sampled oracle only",
-        "likelihood 0 and the 1e-300 guard: T4 assumes v + eps > 0; with eps = 1e-300 a zero likelihood costs 690.78 instead of +inf (decoding then minimises the number of zero factors first); sampled, not proved",
+        "IEEE-754: monotonicity of float + on finite values and the rounding of math.log are not proved (theorems are over linear orders / ordered monoids / groups / reals); the float streams are covered by the correspondence and the sampled oracle only",
         "numpy.argmin on NaN, infinite user-supplied logs and path costs >= 1e300 (sentinel reached) are outside the hypotheses",
+        "the user functions S, Q, P are parameters of the model (any functions of state, observation, epoch and track); exceptions raised by them, and math.log of a negative 'likelihood' (ValueError), are not modelled",
+        "feature names x, y, z, t, timestamp as observations (read from the positions, which modes 3,4,5 overwrite) are outside the model (`unsupported`); MarkovRegularization uses them",
     ]
-    modelled = ("tracklib/algo/dynamics.py: HMM.Qlog / HMM.Plog (conversion -log(v + 1e-300) unless log=True), HMM.estimate "
-                "(state compilation, first column, forward recursion with the 1e300 sentinel and strict <, numpy.argmin of the last "
-                "column, back-pointer walk, hmm_inference / hmm_cost); printing, progress bars, __getObs position modes and the "
-                "overwriting of positions in modes 3,4,5 are not modelled")
+    modelled = ("tracklib/algo/dynamics.py: HMM.__init__ / setLog / setStates / setTransitionModel / setObservationModel (the object: S, Q, P, log), "
+                "HMM.Qlog / HMM.Plog (conversion -log(v + 1e-300) unless the flag is set), HMM.__getObs (feature values of the epoch, the first two / three "
+                "fields merged into a Coords in modes 1,3 / 2,4, exit() when there are too few), HMM.estimate as a whole: self.log = self.log or log, "
+                "compilation of STATES and OBS before any write, first column, forward recursion with the 1e300 sentinel and strict <, "
+                "createAnalyticalFeature of the two result names (no-op when present), numpy.argmin of the last column, backward loop writing the state "
+                "OBJECT and the recorded cost per epoch and the position in modes 3,4,5, with the partial writes left by an IndexError / ValueError on "
+                "an epoch without candidates; tracklib/core/track.py as far as this path uses it: createAnalyticalFeature, setObsAnalyticalFeature, "
+                "getObsAnalyticalFeature(s) on the name -> column table, copy(). There is no decoding mode besides Viterbi: `mode` only selects how "
+                "observations are assembled and whether positions are overwritten; `verbose` only prints (randomised by the harness, not a parameter of the model)")
     trusted = ["numpy.argmin returns the first minimum of a list of finite numbers (modelled as a strict-< scan; exercised by the correspondence)",
-               "math.log / Lean Float.log (C library) in the likelihood stream; the theorems about likelihoods are over the reals"]
-    rule = ("user-supplied S/Q/P read from tables, states labelled 10*epoch+index and callbacks that raise when called with a state or "
+               "math.log / Lean Float.log (C library) in the likelihood streams; the theorems about likelihoods are over the reals",
+               "copy.deepcopy of a track yields an independent track with equal features (the model's tracks are values)"]
+    rule = ("single calls: user-supplied S/Q/P read from tables, states labelled 10*epoch+index and callbacks that raise when called with a state or "
             "observation of the wrong epoch; enumerated blocks of all tables of a shape over {0,-1,-2} (logs) and {0,0.5,1} (likelihoods); "
-            "random shapes to T=8, S=5 with integer, dyadic and float values. non-trivial = at least 2 epochs and at least 2 candidate sequences")
+            "random shapes to T=8, S=5 with integer, dyadic and float values; the flag given to the constructor, to setLog or to estimate(). "
+            "histories (props/c09sess.py): tracks of 1..8 epochs with 1..3 discrete observation features whose values repeat, 1..4 models whose P depends on "
+            "(state label, observed value, epoch) and Q on (label, label, epoch) (time-inhomogeneous or stationary), candidate lists over 1..4 labels that "
+            "repeat across epochs (and inside one), state objects of 8 kinds (ints, strings, tuples, unhashable lists, equal-but-distinct hashable / "
+            "unhashable objects, identity objects, positions), 1..3 HMM objects, 1..4 estimate calls interleaved with setLog / setStates / "
+            "setTransitionModel / setObservationModel, edits of observations, copy() of the track, user features named hmm_inference / hmm_cost, "
+            "hmm_inference / hmm_cost / idx used as observations, modes 0..6, all verbose levels; the oracle re-derives the optimum of EVERY call by "
+            "enumeration from the tables and the observations that call was given. non-trivial = at least 2 epochs and at least 2 candidate sequences")
 
     # ------------------------------------------------------------------ setup / implementation
     def setup(self):
@@ -137,6 +160,7 @@ class P(Prop):
         from tracklib.core.track import Track
         from tracklib.algo import dynamics
         self.Obs, self.ENU, self.ObsTime, self.Track, self.dyn = Obs, ENUCoords, ObsTime, Track, dynamics
+        self.runner = SS.Runner(Obs, ENUCoords, ObsTime, Track, dynamics)
 
     def run_hmm(self, n, Pt, Qt, log, via="ctor"):
         """decode through the public API; returns {"states": labels, "cost": recorded hmm_cost}"""
@@ -204,6 +228,10 @@ class P(Prop):
             yield case["n"], case["P"], case["Q"], case["log"], bool(case.get("exact"))
 
     def impl(self, case):
+        if case["kind"] == "sess":
+            if not SS.valid(case):
+                return {"err": "invalid-session"}
+            return self.runner.run(case)
         via = case.get("via", "ctor")
         outs = [self.run_config(n, Pt, Qt, log, via) for (n, Pt, Qt, log, ex) in self.items(case)]
         return {"items": outs}
@@ -222,6 +250,8 @@ class P(Prop):
                 "C09.decodeF log %s %s %s" % (ns, tok_list(map(fbits, lpf)), tok_list(map(fbits, lqf)))]
 
     def requests(self, case):
+        if case["kind"] == "sess":
+            return [SS.request(case, fbits, tok_list)]
         out = []
         for it in self.items(case):
             out += self.req_lines(*it)
@@ -243,6 +273,8 @@ class P(Prop):
         return {"states": [10 * k + l for k, l in enumerate(idx)], "cost": cost}
 
     def decode(self, case, replies):
+        if case["kind"] == "sess":
+            return SS.parse_reply(case, replies[0], bitsf, untok)
         outs, i = [], 0
         for (n, Pt, Qt, log, exact) in self.items(case):
             if log:
@@ -309,6 +341,8 @@ class P(Prop):
         return None
 
     def spec(self, case, impl_out):
+        if case["kind"] == "sess":
+            return SS.spec(case, impl_out)
         if "items" not in impl_out:
             return "harness: %s" % impl_out
         for i, (it, out) in enumerate(zip(self.items(case), impl_out["items"])):
@@ -345,6 +379,8 @@ class P(Prop):
         return None
 
     def compare(self, case, impl_out, model_out):
+        if case["kind"] == "sess":
+            return SS.compare(case, impl_out, model_out)
         if "items" not in impl_out:
             return "impl=%s" % impl_out
         for i, (it, oi, om) in enumerate(zip(self.items(case), impl_out["items"], model_out["items"])):
@@ -370,7 +406,8 @@ class P(Prop):
                     "the same 5 175 210 assignments over likelihoods {0, 0.5, 1}, each decoded both as likelihoods and as the corresponding logarithms"]
         return ["every table assignment of every shape with T <= 3, S <= 2 that has at most %d assignments (all shapes with T <= 2; "
                 "(1,1,1) (1,1,2) (1,2,1) (2,1,1) (2,1,2)): 37 947 assignments over log-likelihoods {0,-1,-2} and again over likelihoods {0,0.5,1}; "
-                "the shapes (1,2,2) (2,2,1) (2,2,2) are sampled by 40 random blocks of 243 consecutive assignments each (enumerated completely in the thorough tier)" % self.QUICK_FULL]
+                "the shapes (1,2,2) (2,2,1) (2,2,2) are sampled by 40 random blocks of 243 consecutive assignments each (enumerated completely in the thorough tier); "
+                "histories of calls are sampled, not enumerated" % self.QUICK_FULL]
 
     def blocks(self, n, log, total):
         return [{"kind": "exh", "log": log, "n": n, "start": s, "count": min(BLOCK, total - s)} for s in range(0, total, BLOCK)]
@@ -408,7 +445,7 @@ class P(Prop):
         log, exact = self.FLAVOURS[fl]
         Pt, Qt = self.rand_tables(rng, n, fl)
         return {"kind": "rand", "flavour": fl, "log": log, "exact": exact, "n": n, "P": Pt, "Q": Qt,
-                "via": rng.choice(["ctor", "ctor", "setter"])}
+                "via": rng.choice(["ctor", "ctor", "setter", "estimate-arg"])}
 
     def cases(self, rng, tier):
         out = []
@@ -440,6 +477,11 @@ class P(Prop):
             n = [5] * 8
             Pt, Qt = self.rand_tables(rng, n, fl)
             out.append({"kind": "rand", "flavour": fl, "log": log, "exact": exact, "n": n, "P": Pt, "Q": Qt})
+        # histories of calls (props/c09sess.py)
+        for _ in range(60000 if thorough else 4000):
+            out.append(SS.gen_session(rng))
+        for _ in range(400 if thorough else 30):
+            out.append(SS.gen_session(rng, big=True))
         return out
 
     def search_cases(self, rng):
@@ -454,21 +496,25 @@ class P(Prop):
                         out.append({"kind": "exh", "log": log, "n": n, "start": rng.randrange(0, total // BLOCK) * BLOCK, "count": BLOCK})
         for _ in range(10000):
             out.append(self.rand_case(rng, 8, 5, 3000))
+        for _ in range(20000):
+            out.append(SS.gen_session(rng))
         return out
 
     def nontrivial(self, case):
+        if case["kind"] == "sess":
+            return SS.nontrivial(case)
         n = case["n"]
         return len(n) >= 2 and all(nk >= 1 for nk in n) and math.prod(n) >= 2
 
     def describe(self, case):
+        if case["kind"] == "sess":
+            return SS.describe(case)
         n = case["n"]
         return {"kind": case["kind"], "T": len(n), "maxS": max(n) if n else 0, "values": ("log " if case["log"] else "lik ") + case.get("flavour", "3-set"),
                 "via": case.get("via", "ctor")}
 
     # ------------------------------------------------------------------ findings / shrinking
     def classify(self, case, impl_out, msg):
-        if case.get("via") == "estimate-arg" and case.get("log"):
-            return "log-flag-passed-to-estimate"
         return None
 
     def explicit(self, case, i):
@@ -477,6 +523,9 @@ class P(Prop):
         return {"kind": "one", "log": case["log"], "exact": case["log"], "n": case["n"], "P": Pt, "Q": Qt}
 
     def shrink(self, case):
+        if case["kind"] == "sess":
+            yield from SS.shrink(case)
+            return
         if case["kind"] == "exh":
             c = case["count"]
             if c == 1:
@@ -523,6 +572,8 @@ class P(Prop):
 
     def mutate(self, case, rng):
         out = []
+        if case["kind"] == "sess":
+            return SS.mutate(case, rng)
         if case["kind"] == "exh":
             bases = [self.explicit(case, case["start"] + rng.randrange(case["count"])) for _ in range(10)]
         else:
